@@ -999,6 +999,11 @@ func (s *c01SegReader) Read(p []byte) (int, error) {
 	n := copy(p, s.b[s.off:])
 	s.off += n
 	s.n += int64(n)
+	if s.off >= len(s.b) && n > 0 {
+		// the last bytes come together with io.EOF, as the io.Reader contract allows
+		// (a body of known length is read that way)
+		return n, io.EOF
+	}
 	return n, nil
 }
 
